@@ -105,6 +105,8 @@ package requestreply
 //@   callee CONS = p.config.SubscriberConstructor
 //@   callee GEN = p.config.GenerateSubscribeTopic
 //@   callee SUB = notificationsSubscriber.Subscribe
+//@   assert @call:notificationsSubscriber.Subscribe: ctxparent(ctx) == param(ctx) [the-listener-listens-to-a-child-of-the-callers-context]
+//@   assert @call:notificationsSubscriber.Subscribe: p.config.ListenForReplyTimeout != nil ==> ctxtimeout(ctx) == deref(p.config.ListenForReplyTimeout) [and-that-child-ends-after-the-configured-timeout-whatever-deadline-the-caller-has]
 //@   ensures result1 == nil ==> result0 != nil && spawned("(PubSubBackend[Result]).ListenForNotifications$1") == old(spawned("(PubSubBackend[Result]).ListenForNotifications$1")) + 1 && calls(SUB) == old(calls(SUB)) + 1 && ret(SUB, 1, old(calls(SUB))) == nil && arg(SUB, 1, old(calls(SUB))) == ret(GEN, 0, old(calls(GEN))) [subscribed-to-the-generated-reply-topic-before-returning-and-one-listener-started]
 //@   ensures result1 != nil ==> result0 == nil && spawned("(PubSubBackend[Result]).ListenForNotifications$1") == old(spawned("(PubSubBackend[Result]).ListenForNotifications$1")) [no-listener-without-a-subscription]
 
